@@ -568,6 +568,9 @@ func (ps *pathState) violation(label, msg string, extra *Term) {
 	var model map[string]string
 	if r == resSat {
 		model = ps.model()
+		if os.Getenv("GOSE_DEBUG_MODEL") != "" {
+			fmt.Fprintf(os.Stderr, "DEBUG violation %s: nondet=%d model=%d trace=%v prefix=%v obs=%v\n", label, len(ps.nondet), len(model), ps.trace, ps.prefix, ps.obs)
+		}
 	} else {
 		model = map[string]string{"__note": "no model (" + r.String() + ")"}
 	}
